@@ -172,6 +172,36 @@ def _lean_str(s):
     return '"' + "".join(out) + '"'
 
 
+def wait_shape():
+    """(waits on every limited throttle, cancels its waits in a finally clause) - from the body of `ThrottleStreamIO.wait`;
+    an unrecognised body gives (False, False)"""
+    import ast
+    import os
+
+    src_dir = os.path.join(os.environ.get("AIOFTP_REPO", "/repo"), "src")
+    with open(os.path.join(src_dir, "aioftp", "common.py")) as fh:
+        tree = ast.parse(fh.read())
+    cls = next((n for n in tree.body if isinstance(n, ast.ClassDef) and n.name == "ThrottleStreamIO"), None)
+    fn = next((n for n in (cls.body if cls else []) if isinstance(n, ast.AsyncFunctionDef) and n.name == "wait"), None)
+    if fn is None:
+        return False, False
+    body = [st for st in fn.body if not (isinstance(st, ast.Expr) and isinstance(getattr(st, "value", None), ast.Constant))]
+    texts = [ast.unparse(st) for st in body]
+    head = [
+        "tasks = []",
+        "for throttle in self.throttles.values():\n    curr_throttle = getattr(throttle, name)\n    if curr_throttle.limit:\n        tasks.append(asyncio.create_task(curr_throttle.wait()))",
+    ]
+    if texts[:2] != head or len(texts) != 3:
+        return False, False
+    plain = "if tasks:\n    await asyncio.wait(tasks)"
+    guarded = "if tasks:\n    try:\n        await asyncio.wait(tasks)\n    finally:\n        for task in tasks:\n            task.cancel()"
+    if texts[2] == plain:
+        return True, False
+    if texts[2] == guarded:
+        return True, True
+    return False, False
+
+
 def gen_throttle_wiring():
     f = facts()
     rows = ",\n".join("  (%s, %s)" % (_lean_str(k), _lean_str(f[k])) for k in sorted(f))
@@ -180,7 +210,11 @@ def gen_throttle_wiring():
         "namespace Generated\n\n"
         "/-- (call site, unparsed expression) for every place that decides which throttles a stream holds -/\n"
         "def throttleWiring : List (String × String) := [\n" + rows + "]\n\n"
-        "end Generated\n"
+        "/-- `ThrottleStreamIO.wait` starts a wait for EVERY limited throttle of the stream and awaits them all -/\n"
+        "def throttleWaitOnEveryLimited : Bool := %s\n\n"
+        "/-- ... and cancels those waits in a `finally` clause (they do not outlive a cancelled caller) -/\n"
+        "def throttleWaitCancelsItsWaits : Bool := %s\n\n"
+        "end Generated\n" % tuple("true" if x else "false" for x in wait_shape())
     )
 
 
